@@ -3,6 +3,7 @@ import GrassProofs.Lemmas.SelSem
 import GrassProofs.Lemmas.SelWalk
 import GrassProofs.Lemmas.ExtSem
 import GrassProofs.Lemmas.ExtComplex
+import GrassProofs.Lemmas.ExtChain
 import GrassProofs.C11
 /-
   C10 — @extend makes extenders match wherever the target matched, nothing else.
@@ -620,6 +621,150 @@ theorem C10_first_law (sw : Switches) (hsw : sw.supAsFound = false) (e : Ext) (a
   exact GLX_mono mComp (credC e.extender e.target) (fun c q h => by
     simp only [credC, List.all_eq_true, Bool.or_eq_true]
     intro s hs; exact Or.inl (mComp_mem h hs)) X q p hq
+
+/-! ### two successive @extends: `E {@extend t}` then `F {@extend .n}` (a chain when `.n` occurs in `E`) -/
+
+/-- `extend_list` on an arbitrary flagged list (what `extend_existing_selectors` re-extends) -/
+theorem extendList_sem (sw : Switches) (hsw : sw.supAsFound = false) (e : Ext) (all : List Ext)
+    (hE : e.extender ≠ []) (m : Option Nat) (l out : List Flagged) (hl : ∀ x ∈ l, noSelX x.1 = true)
+    (h : extendList sw [e] all m l = .ok out) (p : Ctx) :
+    matchesList (out.map (·.1)) p = cList (credit1 e.extender e.target) (l.map (·.1)) p := by
+  have hsem := extendEach_sem sw hsw e all hE m p l hl
+  unfold extendList at h
+  revert hsem
+  cases hE' : extendEach sw [e] all m l with
+  | error er => intro _; rw [hE'] at h; cases h
+  | ok v =>
+    obtain ⟨l', any⟩ := v
+    intro hsem
+    rw [hE'] at h
+    have hout : mF out p = mF l' p := by
+      cases any with
+      | false =>
+        simp only at h; injection h with h; subst h
+        rw [hsem.2 rfl]
+      | true =>
+        simp only at h; injection h with h; subst h
+        have := C10_trim_preserves_matches (isSuperComplex0 sw.supAsFound) (srcSpecOf all) l' p
+          (by intro a b hh hb; rw [hsw] at hh; exact isSuperComplex0_sound a b p hh hb)
+        simpa [mF, matchesList, List.any_map, Function.comp_def] using this
+    have : matchesList (out.map (·.1)) p = mF out p := by
+      simp [mF, matchesList, List.any_map, Function.comp_def]
+    rw [this, hout, hsem.1]
+
+/-- crediting through the chain: `.n` is credited to elements matched by `F`, `t` to elements matched by
+    `E` once `.n` has been credited -/
+def creditChain (E : Compound) (t : Simple) (F : Compound) (n : Name) : Simple → Ctx → Bool :=
+  fun s p => credit1 F (.cls n) s p || (decide (s = t) && cComp (credit1 F (.cls n)) E p)
+
+theorem mComp_tau (F : Compound) (n : Name) (hF : noSelC F = true) :
+    ∀ (c : Compound) (p : Ctx), noSelC c = true →
+      mComp c (tau (addCls F n) p) = cComp (credit1 F (.cls n)) c p := by
+  intro c
+  induction c with
+  | nil => intro p _; simp [mComp, cComp]
+  | cons s ss ih =>
+    intro p h
+    simp only [noSelC, List.all_cons, Bool.and_eq_true, Bool.not_eq_true'] at h
+    simp only [mComp, cComp]
+    rw [mSimple_tau F n hF s p h.1, cSimple_noSel _ _ _ h.1, ih p (by simpa [noSelC] using h.2)]
+    rfl
+
+theorem cComp_tau (E : Compound) (t : Simple) (F : Compound) (n : Name) (hF : noSelC F = true) (hE : noSelC E = true) :
+    ∀ (c : Compound) (p : Ctx), noSelC c = true →
+      cComp (credit1 E t) c (tau (addCls F n) p) = cComp (creditChain E t F n) c p := by
+  intro c
+  induction c with
+  | nil => intro p _; simp [cComp]
+  | cons s ss ih =>
+    intro p h
+    simp only [noSelC, List.all_cons, Bool.and_eq_true, Bool.not_eq_true'] at h
+    simp only [cComp]
+    rw [cSimple_noSel _ _ _ h.1, cSimple_noSel _ _ _ h.1, ih p (by simpa [noSelC] using h.2),
+      mSimple_tau F n hF s p h.1]
+    simp only [credit1, creditChain, mComp_tau F n hF E p hE]
+    cases mSimple s p <;> cases decide (s = Simple.cls n) <;> cases mComp F p <;> cases decide (s = t) <;> simp
+
+theorem complex_tau (mc1 mc2 : Compound → Ctx → Bool) (g : Elem → Elem) (X : Complex)
+    (h : ∀ c, Component.compound c ∈ X → ∀ q, mc1 c (tau g q) = mc2 c q) (p : Ctx) :
+    gComplex mc1 X (tau g p) = gComplex mc2 X p := by
+  rw [Bool.eq_iff_iff, gComplex_iff, gComplex_iff]
+  constructor
+  · rintro ⟨q', hq'⟩
+    obtain ⟨q, _, hq⟩ := (GLX_tau g mc1 X q' p).1 hq'
+    exact ⟨q, (GLX_congr _ _ X h q p).1 hq⟩
+  · rintro ⟨q, hq⟩
+    exact ⟨tau g q, (GLX_tau g mc1 X _ p).2 ⟨q, rfl, (GLX_congr _ _ X h q p).2 hq⟩⟩
+
+/-- **two successive single-compound @extends**: a rule `S` (no selector pseudo) extended by
+    `E {@extend t}` and then re-extended — as `extend_existing_selectors` does — by `F {@extend .n}`
+    matches exactly the contexts the original `S` matches when `.n` is credited to the elements
+    matched by `F` and `t` to the elements matched by `E` *after that crediting* (so the chain
+    `F → .n ∈ E → t` is followed).  Guards: the second target is a class, extenders carry no selector
+    pseudo, and the intermediate selector carries none (`hout1`, decidable). -/
+theorem C10_extend_two_step (sw : Switches) (hsw : sw.supAsFound = false) (e1 e2 : Ext) (all1 all2 : List Ext)
+    (n : Name) (h2t : e2.target = .cls n) (hE1 : e1.extender ≠ []) (hE2 : e2.extender ≠ [])
+    (hn1 : noSelC e1.extender = true) (hn2 : noSelC e2.extender = true)
+    (m : Option Nat) (S : SelList) (hS : noSelL S = true) (fl : Bool) (out1 out2 : List Flagged)
+    (h1 : extendList sw [e1] all1 m (S.map fun x => (x, fl)) = .ok out1)
+    (hout1 : ∀ x ∈ out1, noSelX x.1 = true)
+    (h2 : extendList sw [e2] all2 m out1 = .ok out2) (p : Ctx) :
+    matchesList (out2.map (·.1)) p = cList (creditChain e1.extender e1.target e2.extender n) S p := by
+  have hcomp : ∀ (X : Complex), noSelX X = true → ∀ c, Component.compound c ∈ X → noSelC c = true := by
+    intro X hX c hc
+    have := (List.all_eq_true.1 hX) _ hc
+    simpa using this
+  -- second step, read as plain matching in the context where `F`-elements carry the class
+  have s2 := extendList_sem sw hsw e2 all2 hE2 m out1 out2 hout1 h2 p
+  rw [s2, h2t]
+  have a1 : cList (credit1 e2.extender (.cls n)) (out1.map (·.1)) p =
+      matchesList (out1.map (·.1)) (tau (addCls e2.extender n) p) := by
+    unfold cList matchesList
+    rw [Bool.eq_iff_iff, List.any_eq_true, List.any_eq_true]
+    have key : ∀ X ∈ out1.map (·.1), cComplex (credit1 e2.extender (.cls n)) X p =
+        matchesComplex X (tau (addCls e2.extender n) p) := by
+      intro X hX
+      simp only [List.mem_map] at hX
+      obtain ⟨x, hx, rfl⟩ := hX
+      rw [cComplex_eq_g, matchesComplex_eq_g]
+      exact (complex_tau mComp _ _ x.1 (fun c hc q => mComp_tau e2.extender n hn2 c q (hcomp x.1 (hout1 x hx) c hc)) p).symm
+    constructor
+    · rintro ⟨X, hX, hm⟩; exact ⟨X, hX, by rw [← key X hX]; exact hm⟩
+    · rintro ⟨X, hX, hm⟩; exact ⟨X, hX, by rw [key X hX]; exact hm⟩
+  rw [a1, C10_extend_single_compound_iff sw hsw e1 all1 hE1 m S hS fl out1 h1 (tau (addCls e2.extender n) p)]
+  unfold matchesCredited cList
+  rw [Bool.eq_iff_iff, List.any_eq_true, List.any_eq_true]
+  have key2 : ∀ X ∈ S, cComplex (credit1 e1.extender e1.target) X (tau (addCls e2.extender n) p) =
+      cComplex (creditChain e1.extender e1.target e2.extender n) X p := by
+    intro X hX
+    rw [cComplex_eq_g, cComplex_eq_g]
+    exact complex_tau _ _ _ X (fun c hc q => cComp_tau e1.extender e1.target e2.extender n hn2 hn1 c q
+      (hcomp X ((List.all_eq_true.1 hS) X hX) c hc)) p
+  constructor
+  · rintro ⟨X, hX, hm⟩; exact ⟨X, hX, by rw [← key2 X hX]; exact hm⟩
+  · rintro ⟨X, hX, hm⟩; exact ⟨X, hX, by rw [key2 X hX]; exact hm⟩
+
+/-- Rule-order independence for the two-step fragment at the level of the whole stylesheet (open):
+    it needs `extend_existing_extensions` (derived extensions, mod.rs:1042) in the store model, which
+    still answers `unsupported` for chains.  The repaired behaviour (C10-X1, c66199e) is checked on the
+    implementation by the order oracle of the check and its regression cases. -/
+def C10_two_step_order_full : Prop :=
+  ∀ (sw : Switches) (S E F : SelList) (t u : Simple) (m : Option Nat),
+    run sw [.rule S m, .extend E t false none, .extend F u false none] =
+      run sw [.extend E t false none, .extend F u false none, .rule S m]
+
+-- non-vacuity: `.a c` extended by `.b.x {@extend .a}` and then by `.q {@extend .b}` (a chain)
+private def ext1 : Ext := ⟨[.cls ['b'], .cls ['x']], .cls ['a'], false, none⟩
+private def ext2 : Ext := ⟨[.cls ['q']], .cls ['b'], false, none⟩
+example :
+    (match extendList Switches.spec [ext1] [ext1] none [([.compound [.cls ['a']], .compound [.type ['c']]], true)] with
+     | .ok o1 => (match extendList Switches.spec [ext2] [ext1, ext2] none o1 with
+        | .ok o2 => o2.map (·.1)
+        | .error _ => [])
+     | .error _ => []) =
+    [[.compound [.cls ['a']], .compound [.type ['c']]],
+     [.compound [.cls ['b'], .cls ['x']], .compound [.type ['c']]],
+     [.compound [.cls ['x'], .cls ['q']], .compound [.type ['c']]]] := by decide +kernel
 
 /-! ### placeholders -/
 
